@@ -1,8 +1,8 @@
 #!/bin/bash
 # Offline setup: build the Coq development (full .vo), extract, build OCaml drivers.
 set -e
-cd /verif
-export VERIF_ROOT=/verif
+ROOT="$(cd "$(dirname "${BASH_SOURCE[0]}")" && pwd)"
+cd "$ROOT"
+export VERIF_ROOT="$ROOT"
 ./coq/build.sh all
-PYTHONPATH=/verif/harness /venv/bin/python -m compileall -q harness/vh >/dev/null 2>&1 || true
 echo "setup ok"
